@@ -4,16 +4,19 @@ from .mir import callee, callee_matches, Prov
 from .ctx import where_of
 
 EXPLANATION = (
-    "Every structural reason for which a tail call would consume Rust stack: (tail-returns) in both tail evaluators "
-    "the ProcedureCall arm makes no call into the evaluator and only builds a TailCall; the Conditional arm "
-    "evaluates only the test with eval_expression and hands both branches to the tail evaluator; (trampoline) in "
-    "apply_procedure the TailCall arm re-assigns the applied procedure and the arguments from eval_procedure_call "
-    "and reaches the loop back edge, never apply_procedure/apply_scheme_procedure; apply_scheme_procedure is called "
-    "only inside that loop; (no-stack-cycle) in the resolved call graph with builtin bodies as indirect-call "
-    "targets, apply_procedure lies on no cycle once the edges into eval_expression (non-tail sub-expressions) are "
-    "removed; (frames-dropped) the loop accumulates nothing per iteration; (derived-tail) by abstract expansion of "
-    "grammar.sld, every R7RS tail sub-form of begin/let/let*/cond/case/and/or/when/unless ends up in a position "
-    "the two rules above prove to be handled without stack growth.")
+    'Every structural reason for which a tail call would consume Rust stack: (tail-returns) nested tail `if` '
+    'table — for every nesting of conditionals to depth 2 (thorough: 3) and every vector of test outcomes, a call '
+    'in tail position comes back from the tail evaluator as a pending TailCall carrying its operator, operands '
+    'and environment, and nothing but the tests is evaluated; (trampoline, iteration-is-application) decision '
+    'tables of apply_procedure: the pending call is evaluated exactly once in the environment it carries, the '
+    'next turn applies the procedure it evaluated to, to the evaluated arguments, in a fresh frame under THAT '
+    "closure's environment, a builtin reached by a tail call is applied to the evaluated arguments, a self tail "
+    'call gets a frame of its own whatever the reference count of the finished frame, and apply_procedure is '
+    'never re-entered for a pending call; (no-stack-cycle) in the resolved call graph with builtin bodies as '
+    'indirect-call targets, apply_procedure lies on no cycle once the edges into eval_expression (non-tail sub- '
+    'expressions) are removed; (frames-dropped) the trampoline loop accumulates nothing per iteration; (derived- '
+    'tail) by abstract expansion of grammar.sld, every R7RS tail sub-form of '
+    'begin/let/let*/cond/case/and/or/when/unless ends up in a tail position of the core forms.')
 NOT_DECIDED = ("measured stack depth and live heap per iteration (run-time quantities); equality of the loop's result "
                "with the bounded iteration.")
 
